@@ -293,6 +293,9 @@ func (w *mutWalk) walk(v reflect.Value, path string, inKey, gov, top bool, depth
 		}
 	case reflect.Struct:
 		for i := 0; i < v.NumField() && !w.done; i++ {
+			if t.Field(i).Name == "_" {
+				continue
+			}
 			w.walk(field(v, i), path+"."+t.Field(i).Name, inKey, gov, false, depth+1)
 		}
 	}
